@@ -3,6 +3,7 @@ package nitrocheck
 import (
 	"fmt"
 	"testing"
+	"time"
 
 	"github.com/couchbase/nitro"
 
@@ -16,10 +17,17 @@ import (
 // physically expected versions account for, and that an idle empty instance is
 // back at the fresh-instance value.
 func (w *World) memoryOracle() {
-	d := w.Stats()
 	var want int64
 	for _, v := range w.phys {
 		want += int64(v.node.Size()) + 12 + int64(len(v.bytes))
+	}
+	// DumpStats adds up the global and the workers' local counters without synchronisation; a worker
+	// that is just merging its local counters makes one reading count a node twice. Only a
+	// persistent difference is an accounting error.
+	d := w.Stats()
+	for try := 0; try < 50 && d.MemoryUsed != want; try++ {
+		time.Sleep(200 * time.Microsecond)
+		d = w.Stats()
 	}
 	if d.MemoryUsed != want {
 		w.Failf("gc-memory", "memory_used=%d at collection quiescence, the %d physically expected versions account for %d", d.MemoryUsed, len(w.phys), want)
